@@ -318,6 +318,7 @@ def main(argv):
         n_gen, gen_failed, gen_info = run_translator(cfg, log)
     # failing obligations (with their counter-examples) are handed to the harness, which
     # re-runs them on the real code: that is where a concrete failing input comes from
+    os.makedirs(GEN, exist_ok=True)
     with open(os.path.join(GEN, pid + ".failed_obligations.json"), "w") as f:
         json.dump(gen_failed, f)
     known_oblig = {}
